@@ -78,6 +78,21 @@ CHECKS = {
         note="Coq kernel + vm_compute; models WriteXl.v + reader models; H_openpyxl_store; xlsxwriter backend not installed and not covered; the table-level round-trip statement rests on the shared layout lemmas (see Properties).",
         design="DESIGN.md section 5/C09",
     ),
+    "C16": dict(
+        text="Theorems over the LIFO work-list with visited set for abstract resolution / enqueued items / yielded blocks (hence for every loader composition, file tree and include graph): termination with an explicit fuel bound, each location read at most once, completed loads read exactly the reachable locations, the output is per location its blocks together and in order, every reported repetition names a read location. The file-system instantiation (folder matching, include resolution, path model) is run against load_files on real directory trees with every open()/listdir observed through an audit hook; an in-memory 'mem:' protocol loader exercises prefix dispatch.",
+        note="Coq kernel + vm_compute; models Load.v, Path.v; H_path (pathlib on POSIX) tied by the correspondence; directory order observed; protocol dispatch covered by the oracle only.",
+        design="DESIGN.md section 5/C16",
+    ),
+    "C17": dict(
+        text="Theorems: a specification resolves to a canonical path (no symlink component) with the root as prefix or is a load error; realpath leaves no link in its result; lifted to the loader: however the load ends, every location opened, listed or read from lies canonically under the root, and an unresolvable item aborts before being visited. Correspondence and oracle on hostile trees (outward / upward / absolute / looping symlinks, .. and // and backslash and file: prefixes) with all OS-level opens and listings observed.",
+        note="Coq kernel + vm_compute; models Path.v, Load.v; root given as resolved absolute path; symlink loops raise in pathlib (outside the statement); stat/readlink during resolution are not 'open/list'.",
+        design="DESIGN.md section 5/C17",
+    ),
+    "C18": dict(
+        text="Theorems: a TABLE block's origin row is the index of its '**' row (segmentation theorem); every location read has a chain of load items back to a root (reachability); location trees over any list of loaded tables hold every table exactly once as a leaf beneath its file node, and every registered child sits under the head of its chain. Oracle compares file / sheet / row with the generator's ground truth (csv trees and multi-sheet workbooks), checks the load-history chain link by link and the forest shape.",
+        note="Coq kernel + vm_compute; models Segment.v, Load.v, Tree.v; the tie of load_history / make_location_trees to the models is by the oracle (ground truth) rather than by a generated-cases comparison.",
+        design="DESIGN.md section 5/C18",
+    ),
 }
 ALL = [f"C{n:02d}" for n in range(1, 21)]
 NOT_YET = {p: "check not built yet in this revision (planned, see DESIGN.md section 5); not a claim that the technique cannot apply" for p in ALL if p not in CHECKS}
